@@ -263,6 +263,63 @@ Definition del_user (st : state) (u : N) : state * out :=
   | None => (st1, OStatus false)
   end.
 
+(* ---- a load raced by an admin edit ----
+   getPrincipal rebuilds inside a CAS-retried datastore Update: read the document, run the callback (unmarshal into a
+   FRESH principal, rebuild what is invalidated), compare-and-swap.  [load_user_race] / [load_role_race] model one
+   GetUser / GetRole during which UpdatePrincipal on the same principal runs between the first read and its write:
+     - no document: the callback cancels, the edit lands afterwards;
+     - nothing to rebuild: the callback cancels (no write), the principal read BEFORE the edit is returned;
+     - rebuild needed: attempt 1 (computed from the document read first) is written only if the document is still
+       what was read; otherwise the callback runs again on the NEW document. *)
+Definition urec_eqb (a b : urec) : bool :=
+  list_eqb N.eqb (u_xch a) (u_xch b) && option_eqb (list_eqb N.eqb) (u_ch a) (u_ch b) &&
+  list_eqb N.eqb (u_xro a) (u_xro b) && option_eqb (list_eqb N.eqb) (u_ro a) (u_ro b).
+Definition rrec_eqb (a b : rrec) : bool :=
+  Bool.eqb (r_del a) (r_del b) && list_eqb N.eqb (r_xch a) (r_xch b) && option_eqb (list_eqb N.eqb) (r_ch a) (r_ch b).
+Definition user_needs_rebuild (ur : urec) : bool :=
+  match u_ch ur, u_ro ur with Some _, Some _ => false | _, _ => true end.
+Definition role_needs_rebuild (rr : rrec) : bool :=
+  negb (r_del rr) && match r_ch rr with Some _ => false | None => true end.
+
+(* the part of a load that follows getPrincipal *)
+Definition finish_user (st1 : state) (our : option urec) : state * out :=
+  match our with
+  | None => (st1, OUser None)
+  | Some ur =>
+    let ro := opt_list (u_ro ur) in
+    let res := fold_left load_role_chans ro (st1, opt_list (u_ch ur)) in
+    (fst res, OUser (Some (snd res, ro)))
+  end.
+Definition finish_role (st1 : state) (orr : option rrec) : state * out :=
+  match orr with
+  | Some rr => if r_del rr then (st1, ORole None) else (st1, ORole (Some (opt_list (r_ch rr))))
+  | None => (st1, ORole None)
+  end.
+
+Definition load_user_race (st : state) (u : N) (c r : option (list N)) : state * out :=
+  match users st u with
+  | None => (fst (set_user st u c r), OUser None)
+  | Some ur0 =>
+    if user_needs_rebuild ur0 then
+      let st' := fst (set_user st u c r) in
+      if option_eqb urec_eqb (users st' u) (Some ur0)
+      then let ur1 := snd (rebuild_user st u) in finish_user (set_users st' (upd (users st') u ur1)) ur1
+      else load_user st' u
+    else let res := load_user st u in (fst (set_user (fst res) u c r), snd res)
+  end.
+
+Definition load_role_race (st : state) (r : N) (c : option (list N)) : state * out :=
+  match roles st r with
+  | None => (fst (set_role st r c), ORole None)
+  | Some rr0 =>
+    if role_needs_rebuild rr0 then
+      let st' := fst (set_role st r c) in
+      if option_eqb rrec_eqb (roles st' r) (Some rr0)
+      then let rr1 := snd (rebuild_role st r) in finish_role (set_roles st' (upd (roles st') r rr1)) rr1
+      else load_role st' r
+    else let res := load_role st r in (fst (set_role (fst res) r c), snd res)
+  end.
+
 Inductive op :=
 | Put (d : N) (parent : option rev) (r : rev) (b : body)
 | Purge (d : N)
@@ -271,7 +328,9 @@ Inductive op :=
 | DelRole (r : N) (purge_ : bool)
 | DelUser (u : N)
 | LoadUser (u : N)
-| LoadRole (r : N).
+| LoadRole (r : N)
+| LoadUserRace (u : N) (chans roles_ : option (list N))   (* GetUser raced by SetUser u chans roles_ *)
+| LoadRoleRace (r : N) (chans : option (list N)).          (* GetRole raced by SetRole r chans *)
 
 Definition step (st : state) (o : op) : state * out :=
   match o with
@@ -283,6 +342,8 @@ Definition step (st : state) (o : op) : state * out :=
   | DelUser u => del_user st u
   | LoadUser u => load_user st u
   | LoadRole r => load_role st r
+  | LoadUserRace u c r => load_user_race st u c r
+  | LoadRoleRace r c => load_role_race st r c
   end.
 
 Fixpoint run (st : state) (ops : list op) : state :=
